@@ -300,6 +300,25 @@ class Program:
                 return q
         return None
 
+    def module_consts(self, module, _depth=0):
+        """module-level NAME = <literal> bindings of a hand-written module, plus such names imported from sibling modules -> {name: ('const', v)}"""
+        m = self.mod(module)
+        out = {}
+        for st in m.tree.body:
+            if isinstance(st, ast.Assign) and len(st.targets) == 1 and isinstance(st.targets[0], ast.Name):
+                try:
+                    v = ast.literal_eval(st.value)
+                except Exception:
+                    continue
+                if isinstance(v, (int, float, str, bytes, bool)) or v is None:
+                    out[st.targets[0].id] = ('const', v)
+            if isinstance(st, ast.ImportFrom) and st.level == 1 and st.module in self.modules and _depth < 2:
+                other = self.module_consts(st.module, _depth + 1)
+                for a in st.names:
+                    if a.name in other:
+                        out[a.asname or a.name] = other[a.name]
+        return out
+
     def subclasses(self, module, base):
         m = self.mod(module)
         return [c for c in m.classes if base in self.mro(module, c)]
